@@ -60,8 +60,8 @@ PERTURB = {"MALLOC_PERTURB_": "85"}
 
 def plan(tier):
     if tier == "thorough":
-        return [{"variant": "plain", "workers": 12, "cases": 7000, "name": "plain", "env": PERTURB},
-                {"variant": "asan", "workers": 4, "cases": 700, "name": "asan"}]
+        return [{"variant": "plain", "workers": 12, "cases": 5000, "name": "plain", "env": PERTURB},
+                {"variant": "asan", "workers": 4, "cases": 500, "name": "asan"}]
     return [{"variant": "plain", "workers": 7, "cases": 600, "name": "plain", "env": PERTURB},
             {"variant": "asan", "workers": 1, "cases": 80, "name": "asan"}]
 
@@ -259,12 +259,15 @@ def run(ctx):
             if two:
                 k1, s1, _ = index_src(rng, r.m, ls)
                 k2, s2, _ = index_src(rng, r.n, ls)
+                k1 = "self-imat" if (k1 == "pool-imat" and s1 == p) else k1
+                k2 = "self-imat" if (k2 == "pool-imat" and s2 == p) else k2
                 ctx.count("c15.index." + k1)
                 ctx.count("c15.index." + k2)
                 lhs = "%s[%s, %s]" % (p, s1, s2)
                 kinds = primary(k1, k2)
             else:
                 k1, s1, _ = index_src(rng, r.m * r.n, ls)
+                k1 = "self-imat" if (k1 == "pool-imat" and s1 == p) else k1
                 ctx.count("c15.index." + k1)
                 lhs = "%s[%s]" % (p, s1)
                 kinds = k1
